@@ -812,6 +812,9 @@ theorem evalSpec_map {α β} (f : α → β) (tabs : List (List α)) (p : Prog) 
     · simp [List.map_take, List.map_drop, List.map_flatten]
     · rfl
   | touch p ih => simp only [Prog.evalSpec, ih]
+  | seq p q ihp ihq =>
+    simp only [Prog.evalSpec, ihp, ihq]
+    cases p.evalSpec tabs <;> simp
 
 /-- **C04.passthrough_all_files** — the property, end to end, for the delimited formats (LF, CRLF or mixed line ends):
 for EVERY list of well-formed tables (dumped to files and read back by the code's own construction) and
